@@ -383,3 +383,7 @@ def shrink(c):
         if e[2] != T1.hex() and e[2] != T2.hex():
             for t in (T1, T2):
                 yield {"entries": es[:k] + [[e[0], e[1], t.hex(), e[3]]] + es[k + 1:], "id": c["id"], "raw": c["raw"]}
+
+
+# functions of /repo whose executed-line coverage by this run is reported in the evidence
+ANCHORS = [('swh/model/model.py', 'Directory.from_possibly_duplicated_entries')]
